@@ -1324,14 +1324,17 @@ static int parse_item(struct scanner_s *scanner, cif_container_tp *container, UC
         }
     
         if (result == CIF_OK) {
-            if ((name != NULL) && (container != NULL)) {
+            if (name != NULL) {
                 assert(scanner->skip_depth <= 0);
 
+                /* the item is reported to the handler in syntax-only mode (container == NULL), too */
                 result = OPTIONAL_CALL(scanner->handler->handle_item, (name, value, scanner->user_data), CIF_OK);
                 switch (result) {
                     case CIF_TRAVERSE_CONTINUE:
-                        /* _copy_ the value into the CIF */
-                        result = cif_container_set_value(container, name, value);
+                        /* _copy_ the value into the CIF, if there is one */
+                        if (container != NULL) {
+                            result = cif_container_set_value(container, name, value);
+                        }
                         break;
                     case CIF_TRAVERSE_SKIP_CURRENT:
                         /* no need to set the skip depth because we don't go any deeper from here */
@@ -1633,15 +1636,17 @@ static int parse_loop_packets(struct scanner_s *scanner, cif_loop_tp *loop, stri
                                     result = OPTIONAL_CALL(scanner->handler->handle_packet_start,
                                             (NULL, scanner->user_data), CIF_OK);
                                     switch (result) {
+                                        case CIF_TRAVERSE_CONTINUE:
+                                            break;
                                         case CIF_TRAVERSE_SKIP_CURRENT:
                                             scanner->skip_depth = 1;
                                             break;
                                         case CIF_TRAVERSE_SKIP_SIBLINGS:
                                             scanner->skip_depth = 2;
                                             break;
-                                        case CIF_TRAVERSE_END:
+                                        default:
+                                            /* CIF_TRAVERSE_END or an error code: abort the parse */
                                             goto packets_end;
-                                        /* default: do nothing */
                                     }
                                 }
                             }
@@ -1650,7 +1655,8 @@ static int parse_loop_packets(struct scanner_s *scanner, cif_loop_tp *loop, stri
                             value = packet_values[column_index];  /* it is safe to re-use the existing value object */
 
                             /* parse the value */
-                            if ((result = parse_value(scanner, &value)) == CIF_OK) {
+                            if (((result = parse_value(scanner, &value)) == CIF_OK) && (scanner->skip_depth <= 0)) {
+                                /* values of skipped loops and packets are not reported to the handler */
                                 result = OPTIONAL_CALL(scanner->handler->handle_item,
                                         (name, value, scanner->user_data), CIF_OK);
                                 switch (result) {
